@@ -207,6 +207,8 @@ def encodings(twp, ns, rge, ew, sec):
         ('dir_upper_other_default', f"{twp}{ns.upper()}", f"{rge}{ew.upper()}", str(sec), other_ns, other_ew),
         ('zero_padded', f"{twp:03d}", f"{rge:03d}", f"{sec:02d}", ns, ew),
         ('zero_padded_dir', f"{twp:03d}{ns}", f"{rge:03d}{ew.upper()}", f"{sec:02d}", other_ns, other_ew),
+        ('int_upper_default', twp, rge, sec, ns.upper(), ew.upper()),
+        ('digit_str_upper_default', str(twp), str(rge), str(sec), ns.upper(), ew),
     ]
 
 
@@ -214,6 +216,7 @@ def construct(entry, a, b, c, dn, de, source, ocr=False):
     """Run one constructor entry point with defaults given by `source`."""
     TRS, Tract, MC = _p.TRS, _p.Tract, _p.MasterConfig
     kw = {}
+    raw = None
     saved = (MC.default_ns, MC.default_ew)
     try:
         if source == 'kwarg':
@@ -238,12 +241,13 @@ def construct(entry, a, b, c, dn, de, source, ocr=False):
         elif entry == 'TRS.construct_trs':
             if source == 'config':
                 return None
-            t = TRS(TRS.construct_trs(a, b, c, **kw))
+            raw = TRS.construct_trs(a, b, c, **kw)
+            t = TRS(raw)
         elif entry == 'TRS.set_twprgesec':
             if source == 'config':
                 return None
             t = TRS()
-            t.set_twprgesec(a, b, c, **kw)
+            raw = t.set_twprgesec(a, b, c, **kw)
         elif entry == 'Tract.from_twprgesec':
             if source == 'config':
                 cfg = ','.join(x for x in (dn, de) if x)
@@ -252,7 +256,10 @@ def construct(entry, a, b, c, dn, de, source, ocr=False):
                 t = Tract.from_twprgesec('x', a, b, c, **kw)
         else:
             raise ValueError(entry)
-        return {x: getattr(t, x) for x in ATTRS}
+        out = {x: getattr(t, x) for x in ATTRS}
+        if raw is not None:
+            out['returned'] = raw      # the string handed back by construct_trs / set_twprgesec
+        return out
     finally:
         MC.default_ns, MC.default_ew = saved
 
@@ -281,9 +288,13 @@ def judge_cons(acc, twp, ns, rge, ew, sec, enc, entry, source, ocr=False):
     acc.case(key, got['trs'])
     acc.states += 1
     acc.transitions += 1
+    returned = got.pop('returned', None)
     if got != d:
         diff = {x: (got.get(x), d[x]) for x in ATTRS if got.get(x) != d[x]}
         acc.violation('constructor', f"C12:constructor:{key}", case, got=got['trs'], exp=want, note=str(diff))
+    elif returned is not None and returned != want:
+        acc.violation('constructor', f"C12:constructor_returned_string:{key}", case, got=returned, exp=want,
+                      note='the string returned by the call is not the canonical one')
     else:
         acc.guard('constructor_ok')
 
@@ -341,6 +352,7 @@ def judge_special(acc, args, want, strict, entry):
         acc.case(key, 'EXC')
         acc.violation('exception', f"C12:special_exception:{key}", case, got=f"{type(e).__name__}: {e}")
         return
+    got.pop('returned', None)
     acc.case(key, got['trs'])
     acc.states += 1
     acc.transitions += 1
